@@ -39,14 +39,15 @@ const (
 	kAppEx
 	kFire
 	kFireFail
+	kOversize // handler success whose reply does not fit the server's output buffer (NATS: 1 MiB)
 	kindCount
 )
 
 var kindNames = [...]string{"add", "echo", "echo-oops", "echo-apierr", "ping", "nothing-oops", "getbig", "blob",
-	"unknown-method", "malformed-truncated", "malformed-badtype", "handler-error", "handler-appex", "oneway", "oneway-fail"}
+	"unknown-method", "malformed-truncated", "malformed-badtype", "handler-error", "handler-appex", "oneway", "oneway-fail", "reply-over-limit"}
 
 // one letter per kind for the sequence shape string
-const kindLetters = "aeoxpngbUTMIAfF"
+const kindLetters = "aeoxpngbUTMIAfFL"
 
 type request struct {
 	idx      int
@@ -349,6 +350,23 @@ func newRequest1(rng *rand.Rand, proto string, kind int, o genOpts) *request {
 		mt = thrift.ONEWAY
 		args = wire.Struct(wire.F(1, wire.Str(r.token+randText(rng, rng.Intn(200)))))
 		r.oneway = true
+	case kOversize:
+		// the result is produced all right, but its frame exceeds the NATS
+		// server's 1 MiB output buffer: the server must answer with exactly one
+		// EXCEPTION of type RESPONSE_TOO_LARGE (100) - and go on serving
+		n := 1024*1024 + 1 + rng.Intn(3000)
+		big := strings.Repeat("0123456789abcdef", n/16+1)[:n]
+		if rng.Intn(2) == 0 {
+			r.method = "getBig"
+			pl.ret = big
+			args = wire.Struct(wire.F(1, wire.I32(int32(n))), wire.F(2, wire.Str(r.token)))
+		} else {
+			r.method = "blob"
+			pl.ret = []byte(big)
+			args = wire.Struct(wire.F(1, wire.Bin([]byte(r.token))))
+		}
+		r.expType = thrift.EXCEPTION
+		r.expExType = 100 // frugal.APPLICATION_EXCEPTION_RESPONSE_TOO_LARGE
 	case kFireFail:
 		// the emitted processor answers a failing oneway with an EXCEPTION; the
 		// statement does not say what happens here: zero or one replies accepted
